@@ -222,6 +222,10 @@ def eval_pred(q, p, k, s):
     raise ValueError(op)
 
 
+class VisitBoom(Exception):
+    pass
+
+
 def make_visit(prog, calls):
     def visit(path, key, value):
         p = [key_tok(x) for x in path]
@@ -234,6 +238,8 @@ def make_visit(prog, calls):
                     return False
                 if a[0] == "keep":
                     return True
+                if a[0] == "raise":
+                    raise VisitBoom()
                 nk = key if a[1] is None else keyobj(a[1])
                 nv = value if a[2] is None else leaf(a[2])
                 return (nk, nv)
@@ -262,11 +268,14 @@ def run_impl(case):
 
     calls = []
     try:
+        kw = {} if case.get("reraise") is None else {"reraise_visit": case["reraise"]}
         if case["visit"] is None:
-            out = remap(root)
+            out = remap(root, **kw)
         else:
-            out = remap(root, make_visit(case["visit"], calls))
+            out = remap(root, make_visit(case["visit"], calls), **kw)
         obs["out"] = ["ok", Ser(alias=in_ids).ser(out)]
+    except VisitBoom:
+        obs["out"] = ["raise", "VisitBoom"]
     except TypeError:
         obs["out"] = ["raise", "TypeError"]
     except RecursionError:
@@ -349,10 +358,12 @@ def cpred(q):
 
 def cact(a):
     if a[0] == "drop":
-        return "Drop"
+        return "(Some Drop)"
     if a[0] == "keep":
-        return "(Put None None)"
-    return "(Put %s %s)" % ("None" if a[1] is None else "(Some %s)" % ckey(a[1]),
+        return "(Some (Put None None))"
+    if a[0] == "raise":
+        return "None"
+    return "(Some (Put %s %s))" % ("None" if a[1] is None else "(Some %s)" % ckey(a[1]),
                             "None" if a[2] is None else "(Some %d)" % a[2])
 
 
@@ -368,7 +379,7 @@ def coref(r):
     return "ROther"
 
 
-EXN = {"TypeError": "TypeError", "RecursionError": "(OtherExn 9)"}
+EXN = {"TypeError": "TypeError", "RecursionError": "(OtherExn 9)", "VisitBoom": "VisitError"}
 
 
 def to_coq(case, obs):
@@ -386,8 +397,8 @@ def to_coq(case, obs):
     probes = "[" + "; ".join(
         "(%s, %s, %s)" % (cpath(p), "Ok %s" % coref(g[1]) if g[0] == "ok" else "Raise KeyError",
                           "true" if d else "false") for p, g, d in obs.get("probes", [])) + "]"
-    return "mkCase %s %s %s %s %s %s %s %s %s %s" % (
-        cobj(obs["in"]), visit, out, calls, cobj(obs["in_after"]), cpred(case["query"]), ents,
+    return "mkCase %s %s %s %s %s %s %s %s %s %s %s" % (
+        cobj(obs["in"]), visit, "false" if case.get("reraise") is False else "true", out, calls, cobj(obs["in_after"]), cpred(case["query"]), ents,
         cobj(obs["in_final"]), probes, dc)
 
 
@@ -443,10 +454,12 @@ def gen_prog(rng):
     prog = []
     for _ in range(rng.randint(1, 3)):
         a = rng.random()
-        if a < 0.45:
+        if a < 0.4:
             act = ["drop"]
-        elif a < 0.55:
+        elif a < 0.5:
             act = ["keep"]
+        elif a < 0.58:
+            act = ["raise"]
         else:
             act = ["put", gen_key(rng) if rng.random() < 0.5 else None,
                    gen_leaf(rng) if rng.random() < 0.5 else None]
@@ -621,7 +634,7 @@ def generate(rng, tier, n):
                 nodes, root = gen_graph(rng, rng.choice([4, 6, 8, 12, 20 if big else 12]), rng.choice([2, 3, 4, 6]))
                 if buildable(nodes):
                     break
-        yield {"nodes": nodes, "root": root, "visit": gen_prog(rng),
+        yield {"nodes": nodes, "root": root, "visit": gen_prog(rng), "reraise": rng.choice([None, None, True, False, False]),
                "query": ["true"] if rng.random() < 0.35 else gen_pred(rng), "dc": rng.random() < 0.3,
                "probes": gen_probes(rng, nodes, root, rng.randint(0, 4))}
 
